@@ -102,8 +102,36 @@ fn program(rng: &mut Rng, idx: u64, allow_unbounded_recursion: bool) -> Option<(
 
 struct CliRun {
     stdout: Vec<u8>,
+    stderr: Vec<u8>,
     code: Option<i32>,
     signal: bool,
+}
+
+/// `kind|frame|frame` of the first AddressSanitizer report on stderr (frames inside the crate).
+fn asan_report(stderr: &[u8]) -> Option<String> {
+    let text = String::from_utf8_lossy(stderr);
+    let at = text.find("ERROR: AddressSanitizer")?;
+    let report = &text[at..];
+    let kind = report.lines().next().unwrap_or("").trim_start_matches("ERROR: AddressSanitizer:").split_whitespace().next().unwrap_or("?").to_string();
+    let mut frames: Vec<String> = Vec::new();
+    for line in report.lines().skip(1) {
+        let l = line.trim_start();
+        if !l.starts_with('#') {
+            if !frames.is_empty() && l.is_empty() {
+                break;
+            }
+            continue;
+        }
+        if let Some(k) = l.find(" in ") {
+            let sym = l[k + 4..].split(" /").next().unwrap_or("").trim();
+            if (sym.contains("naijascript") || sym.contains("naija::")) && frames.len() < 3 {
+                // drop the hash suffix and generic noise
+                let sym = sym.split("::h").next().unwrap_or(sym);
+                frames.push(sym.chars().take(90).collect());
+            }
+        }
+    }
+    Some(format!("{kind}|{}", frames.join("|")))
 }
 
 /// `cuts`: byte offsets at which the writer pauses (the text reaches the pipe in several bursts,
@@ -134,7 +162,7 @@ fn run_cli(naija: &str, args: &[&str], stdin: Option<&str>, cuts: &[usize]) -> s
         });
     }
     let out = child.wait_with_output()?;
-    Ok(CliRun { stdout: out.stdout, code: out.status.code(), signal: out.status.code().is_none() })
+    Ok(CliRun { stdout: out.stdout, stderr: out.stderr, code: out.status.code(), signal: out.status.code().is_none() })
 }
 
 const BURST_PAUSE_MS: u64 = 120;
@@ -254,6 +282,11 @@ fn stage_cli(ctx: &mut Ctx) {
                     continue;
                 }
             };
+            if let Some(sig) = asan_report(&run.stderr) {
+                ctx.out.fail(idx, &format!("cli-asan|{sig}"), json!({"mode": mode, "report_head": String::from_utf8_lossy(&run.stderr).chars().take(1500).collect::<String>()}), replay);
+                all_ok = false;
+                continue;
+            }
             if run.signal {
                 ctx.out.fail(idx, &format!("cli-died-on-signal|{mode}"), json!({"src": src}), replay);
                 all_ok = false;
